@@ -173,3 +173,31 @@ Proof.
   exact (oneway_delivery_zw_fa SA Dt Da Dack n post fa1 st1 st' L0 Hre HG Ho1 HDt HDa Hsy1 Hb1 Hf1 Hon1
            Happ2 Hp2 Hsz Hzx HL Hn Hlate2).
 Qed.
+
+(* ALL WRITTEN OCTETS ARE DELIVERED, from net_init, AFTER ANY FAULT PREFIX: A connects to B and is the only
+   writer, nobody closes.  After any prefix (losses, duplicates, reordering, any clock) that ends with both
+   sockets ESTABLISHED, on every reliable schedule every octet written is handed to B's application within
+   the bound - zero windows included.  Premises: the two configurations, the applications, both ESTABLISHED
+   after the prefix, and [zextra] along the reliable part. *)
+Theorem oneway_delivery_zw_from_net_init Dt Da Dack ca cb st0 : forall n pre evs st st' L0,
+  start_ok Dack ca cb st0 ->
+  Forall (app_ev SA) pre -> net_run st0 pre = Ok st ->
+  (forall z, s_state (net_sock st z) = Established) ->
+  reliable_schedule Dt Da st evs ->
+  Forall (app_ev SA) evs -> net_run st evs = Ok st' ->
+  (forall z, l_len (ep_written (net_get st' z)) < 2 ^ 30) ->
+  run_all (zextra SA) st evs ->
+  L0 <= l_len (ep_written (net_get st SA)) ->
+  Z.max 0 (L0 - una_off (net_get st SA)) + Z.max 0 (L0 - read_off (net_get st SB)) <= Z.of_nat n ->
+  net_now st SA + Z.of_nat n * Wz Dt Da < net_now st' SA ->
+  exists p1 p2 st1, evs = p1 ++ p2 /\ net_run st p1 = Ok st1 /\ net_run st1 p2 = Ok st' /\
+                    L0 <= read_off (net_get st1 SB).
+Proof.
+  intros n pre evs st st' L0 Hstart Hpa Hpre Hest Hrel Happ Hrun Hsz Hzx HL Hn Hlate.
+  assert (Hsm' : NV6.small st').
+  { split; [specialize (Hsz SA) | specialize (Hsz SB)]; cbn [net_get] in Hsz;
+      change (2 ^ 30) with 1073741824 in Hsz; lia. }
+  assert (Hsm : NV6.small st) by exact (NV6.small_mono _ _ (net_run_mono _ _ _ Hrun) Hsm').
+  destruct (reg_of_established Dack ca cb st0 pre st Hstart Hpa Hpre Hsm Hest) as (HG & _ & Hre).
+  exact (oneway_delivery_zw SA Dt Da Dack n evs st st' L0 Hre HG Hrel Happ Hrun Hsz Hzx HL Hn Hlate).
+Qed.
